@@ -74,7 +74,102 @@ func VH18a_modes() {
 		side = vt.Listen(sock, "a")
 		p1 = side.Peer("p1")
 	}
-	switch verif.Choice("mode", 7) {
+	switch verif.Choice("mode", 9) {
+	case 8: // ... and neither is a send deadline
+		const d = time.Second
+		if peers != 0 {
+			verif.Assume(false)
+		}
+		if ep.SetOption(mangos.OptionSendDeadline, d) != nil {
+			verif.Assume(false)
+		}
+		sock.SetOption(mangos.OptionWriteQLen, 1)
+		side = vt.Listen(sock, "a")
+		p1 = side.Peer("p1")
+		learnRoute(proto, sock, p1)
+		p1.SendMode = vt.SendBlock
+		answering := proto == "rep" || proto == "respondent"
+		for i := 0; i < 6; i++ {
+			if answering {
+				p1.Deliver([]byte{0x80, 0, 0, byte(i + 1), 'q'})
+				verif.Quiesce()
+				if _, rerr := ep.RecvMsg(); rerr != nil {
+					break
+				}
+			}
+			var err error
+			t1 := verif.Now()
+			g := verif.Go("send", func() { err = ep.SendMsg(newMsg(proto)) })
+			verif.Quiesce()
+			if g.Done() {
+				if err != nil {
+					break
+				}
+				continue
+			}
+			poke := verif.Choice("poke", 3)
+			verif.Go("poker", func() {
+				time.Sleep(400 * time.Millisecond)
+				switch poke {
+				case 0:
+					ep.SetOption(mangos.OptionWriteQLen, 1)
+				case 1:
+					ep.SetOption(mangos.OptionReadQLen, 3)
+				case 2:
+					ep.SetOption(mangos.OptionTTL, 4)
+				}
+			})
+			verif.Quiesce()
+			verif.RunClockTo(t1 + d)
+			verif.Assert(verif.Now() >= t1+d, lab+"/clock-did-not-reach-the-deadline")
+			verif.Assert(g.Done(), lab+"/send-deadline-extended-by-a-concurrent-option-change")
+			verif.Reach("send-deadline-not-extended")
+			break
+		}
+	case 7: // a receive deadline is not extended by what other goroutines do to the socket while the call waits
+		const d = time.Second
+		if ep.SetOption(mangos.OptionRecvDeadline, d) != nil {
+			verif.Assume(false)
+		}
+		if proto == "sub" {
+			ep.SetOption(mangos.OptionSubscribe, []byte{'t'})
+		}
+		if proto == "req" || proto == "surveyor" {
+			if p1 == nil || ep.SendMsg(newMsg(proto)) != nil {
+				verif.Assume(false)
+			}
+			verif.Quiesce()
+		}
+		t0 := verif.Now()
+		var err error
+		g := verif.Go("recv", func() { _, err = ep.RecvMsg() })
+		verif.Quiesce()
+		if g.Done() {
+			break
+		}
+		poke := verif.Choice("poke", 4)
+		verif.Go("poker", func() {
+			time.Sleep(400 * time.Millisecond)
+			switch poke {
+			case 0:
+				ep.SetOption(mangos.OptionReadQLen, 3)
+			case 1:
+				ep.SetOption(mangos.OptionWriteQLen, 3)
+			case 2:
+				ep.SetOption(mangos.OptionUnsubscribe, []byte{'t'})
+			case 3:
+				ep.SetOption(mangos.OptionTTL, 4)
+			}
+		})
+		verif.Quiesce()
+		// the clock runs to 0.4 s (the poke), then to 1 s (the deadline): everything due by then fires, nothing later
+		verif.RunClockTo(t0 + d)
+		verif.Assert(verif.Now() >= t0+d, lab+"/clock-did-not-reach-the-deadline")
+		verif.Assert(g.Done(), lab+"/recv-deadline-extended-by-a-concurrent-option-change")
+		if g.Done() {
+			verif.Assert(err == mangos.ErrRecvTimeout || err == mangos.ErrProtoState, lab+"/recv-deadline-error-kind")
+		}
+		verif.Reach("deadline-not-extended")
 	case 0: // receive deadline
 		d := verif.Duration("recv-deadline")
 		verif.Assume(verif.And(d >= 1, d <= time.Hour))
